@@ -15,13 +15,15 @@ def corpus(tier):
              D.amb_family(SEED + 206, 3 if q else 9, maxlen=2 if q else 3) +
              D.env_family(SEED + 207, 11 if q else 33, maxlen=2, budget=300 if q else 2000) +
              D.catch_family(SEED + 208, 6 if q else 24, maxlen=2, budget=800 if q else 5000) +
+             D.dupcmd_family(SEED + 213, 4 if q else 12, maxlen=2 if q else 3) +
              D.flagguard_family(SEED + 211, 12 if q else 36, maxlen=2 if q else 3, budget=800 if q else 5000) +
              [dict(d, alpha=dict(d["alpha"], extras=["help"])) for d in D.spell_family(SEED + 205, 14 if q else 56, maxlen=2, budget=4000 if q else 30000)]),
             ("g", "MC_GroupLine", "MC_GroupLine_replay.cfg",
              D.alt_family(SEED + 203, 8 if q else 40, maxlen=3 if q else 4, budget=3000 if q else 20000) +
              D.adj_family(SEED + 204, 6 if q else 30, maxlen=4 if q else 5, budget=3000 if q else 20000) +
              D.alt_env_family(SEED + 209, 6 if q else 30, maxlen=2 if q else 3, budget=1000 if q else 8000) +
-             D.alt_pos_family(SEED + 210, 6 if q else 30, maxlen=3, budget=2000 if q else 15000))]
+             D.alt_pos_family(SEED + 210, 6 if q else 30, maxlen=3, budget=2000 if q else 15000) +
+             D.group_fb_family(SEED + 212, 12 if q else 36, maxlen=3, budget=2500 if q else 15000, with_gdflt=True))]
     return fams
 
 
@@ -49,6 +51,9 @@ def run(v):
                 if m.get("outside"):
                     continue
                 if "rule" in c02.sig(m):      # recorded tokeniser findings F11/F12 belong to C02
+                    continue
+                did = m["def"] if isinstance(m.get("def"), str) else (m.get("def") or {}).get("id", "")
+                if did.startswith("dupcmd"):    # same-named commands: the acceptor gives them no meaning; compared across builds only
                     continue
                 if "rule" in cmdline_sig.alt_env_sig(m):      # F18 belongs to C18/C06
                     continue
